@@ -85,6 +85,8 @@ class ProxyReactor(object):
             try:
                 return f(*aa, **kk)
             except Exception as e:  # noqa: BLE001 - what a reactor does: log and go on
+                if type(e).__name__ == "CaseTooBig":
+                    raise
                 if sink is not None:
                     sink.escape("timer:" + name, e)
                 else:
